@@ -1,1 +1,3 @@
 import SnowModel.Core.RandRange
+import SnowModel.Proofs.C12a
+import SnowModel.Proofs.C12b
